@@ -11,6 +11,11 @@ import os
 
 import vcheck as V
 
+META = {
+    'engine': 'sched',
+    'technique': 'Coq invariant proofs over all interleavings of a transition system of Put/prepend/sched for both timer-channel semantics; skeleton regenerated from timedsched.go and checked equal to the proved reference; real-time stress under both GODEBUG settings',
+    'level_text': "Machine-checked for any number of workers and concurrent Put callers, arbitrary integer deadlines and BOTH Go timer-channel semantics (sync: Stop/Reset discard an undelivered fire; async: a fire parks a value): every task id is executed at most once and lives in exactly one place; execution only follows a clock read strictly after the deadline; at its select a worker with a non-empty heap has its timer armed for at most the heap minimum (plus its own read-to-Reset latency) or a fired value receivable, and never blocks in the drain; from every reachable open state a finite continuation of scheduler steps executes any submitted task; every re-arm uses the heap minimum. Close may drop pending tasks (proved; the property is read as 'not closed before they ran'). The statement skeleton of timedsched.go is regenerated on every run and must equal the reference the transition system was derived from (vm_compute), so an edit of the stop/drain/reset dance, the strict comparison, the re-arm or the peeked heap element breaks the tie.", 'level_note': "Trusted: Coq kernel; the skeleton translator (fails closed on unknown constructs; harmless renamings are normalised, reordering of independent statements is a false alarm); the Go runtime's timers, mutex, select and goroutine scheduling are assumed to behave as specified (partial for the runtime); container/heap assumed correct; a task body that blocks starves its worker. The real-time stress run measures promptness with a slack scaled by control timers."}
+
 FILES = ["sched_test.go"]
 OBLIGATIONS = ["c17_skeleton_tie", "c17_at_most_once", "c17_never_early", "c17_timer_armed",
                "c17_worker_returns", "c17_runs", "c17_prompt", "c17_far_future_no_delay",
